@@ -262,6 +262,59 @@ func splitAnd(t Term) []Term {
 	return out
 }
 
+// splitImplAnd: (=> A (and B1 B2 ...)) becomes [(=> A B1), (=> A B2), ...] (one level; string literals in goals never
+// contain parentheses or spaces - they are named constants).
+func splitImplAnd(t Term) []Term {
+	if !strings.HasPrefix(t, "(=> ") {
+		return []Term{t}
+	}
+	body := t[4 : len(t)-1]
+	depth := 0
+	cut := -1
+	for i := 0; i < len(body); i++ {
+		switch body[i] {
+		case '(':
+			depth++
+		case ')':
+			depth--
+		case ' ':
+			if depth == 0 && cut < 0 {
+				cut = i
+			}
+		}
+		if cut >= 0 {
+			break
+		}
+	}
+	if cut < 0 {
+		return []Term{t}
+	}
+	a, b := body[:cut], body[cut+1:]
+	// b must be a single s-expression
+	d := 0
+	for i := 0; i < len(b); i++ {
+		switch b[i] {
+		case '(':
+			d++
+		case ')':
+			d--
+		case ' ':
+			if d == 0 {
+				return []Term{t}
+			}
+		}
+	}
+	parts := splitAnd(b)
+	if len(parts) <= 1 {
+		return []Term{t}
+	}
+	var out []Term
+	for _, p := range parts {
+		out = append(out, fmt.Sprintf("(=> %s %s)", a, p))
+	}
+	return out
+}
+
 func (vc *VC) oblige(st *State, kind, label, goal, where, desc string) {
 	if st.dead {
 		return
@@ -271,6 +324,12 @@ func (vc *VC) oblige(st *State, kind, label, goal, where, desc string) {
 		return
 	}
 	if goal == "true" {
+		return
+	}
+	if parts := splitImplAnd(goal); len(parts) > 1 && kind == "POST" {
+		for i, p := range parts {
+			vc.oblige(st, kind, fmt.Sprintf("%s.%d", label, i+1), p, where, desc)
+		}
 		return
 	}
 	if parts := splitAnd(goal); len(parts) > 1 && (kind == "POST" || kind == "PRE" || kind == "INV-entry" || kind == "INV-preserve") {
